@@ -83,10 +83,10 @@ type FileRestorer struct {
 	comments        []*ast.CommentGroup
 	base            int
 	cursor          token.Pos
-	nodeDecl        map[*ast.Object]dst.Node // Objects that have a ast.Node Decl (look up after file has been rendered)
-	nodeData        map[*ast.Object]dst.Node // Objects that have a ast.Node Data (look up after file has been rendered)
-	cursorAtNewLine token.Pos                // The cursor position directly after adding a newline decoration (or a line comment which ends in a "\n"). If we're still at this cursor position when we add a line space, reduce the "\n" by one.
-	packageNames    map[string]string        // names in the code of all imported packages ("." for dot-imports)
+	nodeDecl        []objectNode      // Objects that have a ast.Node Decl (look up after file has been rendered)
+	nodeData        []objectNode      // Objects that have a ast.Node Data (look up after file has been rendered)
+	cursorAtNewLine token.Pos         // The cursor position directly after adding a newline decoration (or a line comment which ends in a "\n"). If we're still at this cursor position when we add a line space, reduce the "\n" by one.
+	packageNames    map[string]string // names in the code of all imported packages ("." for dot-imports)
 }
 
 // Print uses format.Node to print a *dst.File to stdout
@@ -122,8 +122,8 @@ func (r *FileRestorer) RestoreFile(file *dst.File) (*ast.File, error) {
 
 	r.file = file
 	r.lines = []int{0} // initialise with the first line at Pos 0
-	r.nodeDecl = map[*ast.Object]dst.Node{}
-	r.nodeData = map[*ast.Object]dst.Node{}
+	r.nodeDecl = nil
+	r.nodeData = nil
 	r.packageNames = map[string]string{}
 	r.comments = []*ast.CommentGroup{}
 	r.cursorAtNewLine = 0
@@ -154,11 +154,16 @@ func (r *FileRestorer) RestoreFile(file *dst.File) (*ast.File, error) {
 		// Sometimes new nodes are created here (e.g. in RangeStmt the "Object" is an AssignStmt
 		// which never occurs in the actual code). These shouldn't have position information but
 		// perhaps it doesn't matter?
-		for o, dn := range r.nodeDecl {
-			o.Decl = r.restoreNode(dn, "", "", "", true)
-		}
-		for o, dn := range r.nodeData {
-			o.Data = r.restoreNode(dn, "", "", "", true)
+		// Restoring a node that is not part of the file can find more Objects, which adds to these
+		// lists, so they are processed in order until nothing is left.
+		for i, j := 0, 0; i < len(r.nodeDecl) || j < len(r.nodeData); {
+			if i < len(r.nodeDecl) {
+				r.nodeDecl[i].obj.Decl = r.restoreNode(r.nodeDecl[i].node, "", "", "", true)
+				i++
+				continue
+			}
+			r.nodeData[j].obj.Data = r.restoreNode(r.nodeData[j].node, "", "", "", true)
+			j++
 		}
 	}
 
@@ -758,6 +763,12 @@ func (r *FileRestorer) applySpace(node dst.Node, position string, space dst.Spac
 	r.verifCursor("space", position, int(space), false, false, false, nil)
 }
 
+// objectNode is a restored Object together with the dst.Node its Decl or Data field refers to.
+type objectNode struct {
+	obj  *ast.Object
+	node dst.Node
+}
+
 func (r *FileRestorer) restoreObject(o *dst.Object) *ast.Object {
 	if !r.Extras {
 		return nil
@@ -800,7 +811,7 @@ func (r *FileRestorer) restoreObject(o *dst.Object) *ast.Object {
 	case dst.Node:
 		// Can't use restoreNode here because we aren't at the right cursor position, so we store a link
 		// to the Object and Node so we can look the Nodes up in the cache after the file is fully processed.
-		r.nodeDecl[out] = decl
+		r.nodeDecl = append(r.nodeDecl, objectNode{out, decl})
 	case nil:
 	default:
 		panic(fmt.Sprintf("o.Decl is %T", o.Decl))
@@ -814,7 +825,7 @@ func (r *FileRestorer) restoreObject(o *dst.Object) *ast.Object {
 	case dst.Node:
 		// Can't use restoreNode here because we aren't at the right cursor position, so we store a link
 		// to the Object and Node so we can look the Nodes up in the cache after the file is fully processed.
-		r.nodeData[out] = data
+		r.nodeData = append(r.nodeData, objectNode{out, data})
 	case nil:
 	default:
 		panic(fmt.Sprintf("o.Data is %T", o.Data))
